@@ -90,7 +90,8 @@ theorem pyInt_decimal (n : Nat) (h : n < countLimit) : pyInt (decimal n) = some 
       rw [hds] at this
       simp at this
       omega
-    simp only [pyInt, Envelope.dropSpace, hsp, Bool.false_eq_true, if_false, Envelope.signedInt, hm, hp,
+    rw [← hds, Envelope.pyInt_of_digits _ (fun x hx => isDigit_of_core (hd x hx)), hds]
+    simp only [Envelope.dropSpace, hsp, Bool.false_eq_true, if_false, Envelope.signedInt, hm, hp,
       Envelope.startDigits, hc, if_true]
     rw [scanDigits_digits r hr]
     simp only [Envelope.finishInt, hval]
